@@ -244,8 +244,13 @@ def build_cases(tier):
                                                    surface_name="surface", shift_uni_mesh=True)))
     C.append(Case("GeomMultiUnification", F("geometry.geometry_unification", "GeomMultiUnification", sections=secs,
                                             surface_name="surface", shift_uni_mesh=False)))
-    C.append(Case("GeomMultiJoin", F("geometry.geometry_multi_join", "GeomMultiJoin", sections=secs,
-                                     dim_constr=[np.ones(3)] * (len(secs) - 1))))
+    # three sections (two shared edges) and more than one constrained coordinate per edge: the declared rows of the second
+    # edge start after *all* constrained coordinates of the first
+    secs3 = secs if len(secs) >= 3 else multi_sections(3)
+    C.append(Case("GeomMultiJoin", F("geometry.geometry_multi_join", "GeomMultiJoin", sections=secs3,
+                                     dim_constr=[np.ones(3)] * (len(secs3) - 1))))
+    C.append(Case("GeomMultiJoin[xy]", F("geometry.geometry_multi_join", "GeomMultiJoin", sections=secs3,
+                                         dim_constr=[np.array([1, 1, 0])] * (len(secs3) - 1))))
     C.append(Case("ReynoldsComp", F("common.reynolds_comp", "ReynoldsComp")))
     C.append(Case("MultiCD", F("integration.multipoint_comps", "MultiCD", n_points=3)))
     return C
